@@ -92,6 +92,8 @@ let parse_uop (t : string list) : uop =
   | ["http_content"; srv; path; size; seed] -> UHttpHandler (zi srv, hexbytes path, HContent (zi size, zi seed))
   | ["http_stall"; srv; path] -> UHttpStall (zi srv, hexbytes path)
   | ["http_stop"; srv] -> UHttpStop (zi srv)
+  | ["proxy_new"; app; node; port] -> UProxyNew (zi app, zi node, zi port)
+  | ["proxy_stop"; app] -> UProxyStop (zi app)
   | ["tcp_write_bytes"; s; data; h] -> UTcpWriteBytes (zi s, hexbytes data, zi h)
   | ["tcp_read_raw"; s; bs; h] -> UTcpReadRaw (zi s, zi bs, zi h, false)
   | ["tcp_read_loop"; s; bs; h] -> UTcpReadRaw (zi s, zi bs, zi h, true)
@@ -161,6 +163,10 @@ let run (v : variant) (ic : in_channel) (oc : out_channel) =
               (List.length t.t_outgoing) (zs t.t_inflight) (zs t.t_cwnd) (List.length t.t_inq) (List.length t.t_reorder)
               (if t.t_recv_h = None then 0 else 1) (if t.t_send_h = None then 0 else 1))
         s.world.w_tcps;
+      List.iter (fun (id, (p : proxy)) ->
+          Printf.fprintf oc "Z proxy %s writing=%b cin=%d sout=%d close=%b\n" (zs id) p.px_writing
+            (List.length p.px_cin) (List.length p.px_sout) p.px_close)
+        s.world.w_proxy;
       (match pcap_bytes s with
        | Some b -> Printf.fprintf oc "F %s\n" (Pdriver.hex_of_bytes b)
        | None -> ());
